@@ -21,9 +21,11 @@ VARIABLES l, cur, oo, prev, ptoks, wit
 tvars == <<l, cur, oo, prev, ptoks, wit>>
 
 ModelOf(p) == [parts |-> SetOf(p.parts), rels |-> SetOf(p.rels), body |-> p.body,
-               ns |-> p.ns, pkgns |-> p.pkgns, hlink |-> p.hlink]
-ObsOf(x) == [parts |-> SetOf(x.parts), rels |-> SetOf(x.rels), toks |-> SetOf(x.toks), zip |-> x.zip, body |-> x.body]
-NoObs == [parts |-> {}, rels |-> {}, toks |-> {}, zip |-> "none", body |-> "none"]
+               ns |-> p.ns, pkgns |-> p.pkgns, hlink |-> p.hlink,
+               styles |-> [sp |-> p.styles.sp, defs |-> SetOf(p.styles.defs)]]
+ObsOf(x) == [parts |-> SetOf(x.parts), rels |-> SetOf(x.rels), toks |-> SetOf(x.toks), mem |-> SetOf(x.mem),
+             zip |-> x.zip, body |-> x.body]
+NoObs == [parts |-> {}, rels |-> {}, toks |-> {}, mem |-> {}, zip |-> "none", body |-> "none"]
 
 AddWit(w, sigs, c) == w \cup {[sig |-> s, case |-> c] : s \in {x \in sigs : ~\E r \in w : r.sig = x}}
 
